@@ -4,7 +4,7 @@
    other steps of Pool.v were written against.  These are the proof obligations that break when the code's
    protocol changes. *)
 Require Import Coq.Strings.String.
-Require Import NX.Base.Prelude NX.Base.ListX NX.Model.Pool NX.gen.PoolProg NX.Proofs.PoolInv NX.Proofs.PoolProofs.
+Require Import NX.Base.Prelude NX.Base.ListX NX.Model.Pool NX.gen.PoolProg NX.Proofs.PoolInv NX.Proofs.PoolProofs NX.Proofs.PoolCons.
 Open Scope string_scope.
 
 Lemma gen_barrier_is_proved : barrier_gen = barrier_fixed.
@@ -62,3 +62,8 @@ Theorem pool_gen_no_global_deadlock n ls : 1 <= n ->
   let s := p_run barrier_gen (p_init n) ls in
   pmain s = MPark -> pmtok s = false -> exists j c s', p_step barrier_gen s (LW j c) = Some s'.
 Proof. rewrite gen_barrier_is_proved. exact (pool_no_global_deadlock n ls). Qed.
+
+Theorem pool_gen_all_tasks_run n ls : 1 <= n ->
+  let s := p_run barrier_gen (p_init n) ls in
+  pmain s = MRead -> pran s = psched s.
+Proof. rewrite gen_barrier_is_proved. exact (pool_all_tasks_run n ls). Qed.
